@@ -21,7 +21,9 @@ import json
 import os
 import random
 import re
+import shutil
 import subprocess
+import tempfile
 import sys
 import time
 import traceback
@@ -639,6 +641,21 @@ def _crash_evidence(pid: str, tier: str, seed: int, why: str) -> None:
         pass
 
 
+# scratch directories made by this process (source images, downloads): the run ends with os._exit, which skips
+# atexit handlers, so they are recorded here and removed by main()
+_SCRATCH_DIRS = []
+_real_mkdtemp = tempfile.mkdtemp
+
+
+def _recording_mkdtemp(*a, **k):
+    path = _real_mkdtemp(*a, **k)
+    _SCRATCH_DIRS.append(path)
+    return path
+
+
+tempfile.mkdtemp = _recording_mkdtemp
+
+
 def main(prop_cls) -> None:
     ap = argparse.ArgumentParser()
     ap.add_argument("--tier", default=os.environ.get("VERIF_TIER", "quick"), choices=["quick", "thorough"])
@@ -656,4 +673,6 @@ def main(prop_cls) -> None:
         rc = 2
         _crash_evidence(prop_cls.id, a.tier, a.seed, traceback.format_exc()[-1500:])
     sys.stdout.flush()
+    for path in _SCRATCH_DIRS:
+        shutil.rmtree(path, ignore_errors=True)
     os._exit(rc)
